@@ -76,15 +76,18 @@ class Vec3d:
             return NotImplemented
     
     def rotate(self, q):
+        from ctypes import byref
+        from .rotation import Rotation
+        from . import clibrebound
         if not isinstance(q, Rotation):
             raise NotImplementedError
-        clibrebound.reb_vec3d_irotate(byref(_vec3d), q)
+        clibrebound.reb_vec3d_irotate(byref(self._vec3d), q)
         return self
 
     def normalize(self):
+        from . import clibrebound
         clibrebound.reb_vec3d_normalize.restype = Vec3dBasic
-        r = clibrebound.reb_vec3d_normalize(self._vec3d)
-        self._vec3d = r._vec3d
+        self._vec3d = clibrebound.reb_vec3d_normalize(self._vec3d)
         return self
 
     def __getitem__(self, key):
